@@ -1523,6 +1523,15 @@ class Interp:
         if kind == 'mir':
             gen = self.callee_generics(callee, target) if callee.endswith('>') else None
             return self.exec_body(self.prog.get(target), target, args, gen)
+        if kind == 'mir_deref':
+            name, nref = target
+            a2 = []
+            for a in args:
+                for _ in range(nref):
+                    if type(a) is Ref and type(a.get()) is Ref:
+                        a = a.get()
+                a2.append(a)
+            return self.exec_body(self.prog.get(name), name, a2)
         if kind == 'model':
             self.callstack.append('std:' + target.__name__)
             r = target(self, args, callee)
@@ -1652,7 +1661,12 @@ class Interp:
             thead = type_head(trait)
             cands = self.traitimpl.get((thead, shead, meth))
             if cands:
-                return ('mir', self.pick_impl(cands, selft, trait))
+                nref = len(re.match(r"^((?:&\s*(?:'\w+\s+)?(?:mut\s+)?)*)", selft.strip()).group(1).replace(' ', '').replace('mut', ''))
+                name = self.pick_impl(cands, selft, trait)
+                if nref and thead in ('PartialEq', 'PartialOrd', 'Ord', 'Eq', 'Display', 'Debug', 'Hash') and not any((c[2] or '').strip().startswith('&') for c in cands):
+                    # std's forwarding impls `impl Trait for &A`: strip the extra reference levels
+                    return ('mir_deref', (name, nref))
+                return ('mir', name)
             # generic self type -> dynamic dispatch on the receiver
             is_generic = re.match(r'^&?\s*(mut\s+)?[A-Z]\w?$', selft.strip()) is not None or shead in ('Self',)
             anyimpl = any(k[0] == thead and k[2] == meth for k in self.traitimpl)
